@@ -1427,8 +1427,15 @@ def run(ctx):
         g = c01gen.generate(ctx.rng, gstats)
         gens.append(dict(src=g["src"], origin="gen:" + (g.get("probe") or "typed"), mods=[], gen_feats=g["feats"], probe=g.get("probe")))
     batches.append(("generated", gens))
+    # core fragment (coq/theories/typed/Core.v): generated programs go through the oracle like all
+    # others AND are compared with the extracted judgement / evaluator (below)
+    from vplib.props import c01core
+    core_stats = {}
+    core_progs = [c01core.generate(ctx.rng, core_stats) for _ in range(ctx.n(400, 8000))]
+    batches.append(("core", [dict(src=cp["src"], origin="gen:core", mods=[], gen_feats=["core_fragment"], core=cp) for cp in core_progs]))
 
     all_failures = []
+    core_recs = []
     per_batch = {}
     feat_hist = {}
     accepted_feat_hist = {}
@@ -1438,6 +1445,8 @@ def run(ctx):
     for label, items in batches:
         before = dict(oracle.stats)
         recs = oracle.run_sources(items)
+        if label == "core":
+            core_recs = list(recs)
         apps = oracle.applications(recs, ctx.n(3, 6))
         recs2 = oracle.run_sources(apps) if apps else []
         per_batch[label] = {k: oracle.stats[k] - before[k] for k in oracle.stats if oracle.stats[k] != before[k]}
@@ -1458,6 +1467,58 @@ def run(ctx):
                             samples.append({"source": it["src"][:600], "origin": it.get("origin"), "verdict": rec["verdict"], "features": feats})
             if rec["failure"]:
                 all_failures.append(rec)
+
+    # ---------------- the core judgement against the real compiler, the core evaluator against the real VM
+    core_cmp = dict(type_eq_value_eq=0, both_reject=0, compiler_only_accepts=0, judgement_only_accepts=0,
+                    type_differs=0, value_differs=0, real_run_not_ok=0, outside_fragment_type=0)
+    core_examples = []
+    if core_progs:
+        _, couts = ctx.run_sharded(drv, [cp["sexp"] for cp in core_progs], timeout=1500)
+        for cp, m, rec in zip(core_progs, couts, core_recs):
+            mt = mv = None
+            if m.startswith("(ty ") and not m.startswith("(ty none"):
+                ps = sexpr.parse("(" + m + ")")
+                mt = c01core.norm(c01core.parse_ty(ps[0][1]))
+                mv = m[m.index("(val ") + 5:-1]
+            r = rec["run"]
+            if rec["status"] != "accepted":
+                core_cmp["both_reject" if mt is None else "judgement_only_accepts"] += 1
+                continue
+            if mt is None:
+                core_cmp["compiler_only_accepts"] += 1
+                if len(core_examples) < 4:
+                    core_examples.append({"class": "compiler_only_accepts", "source": cp["src"]})
+                continue
+            if r is None or r.kind != "ok":
+                core_cmp["real_run_not_ok"] += 1          # the oracle above has judged that run
+                continue
+            try:
+                types, tuples = parse_tables(r.tables)
+                rt = c01core.real_type(types, tuples, r.rtype)
+                rv = c01core.real_value(sexpr.parse(r.value), tuples)
+            except (ValueError, IndexError):
+                rt = rv = None
+            if rt is None:
+                core_cmp["outside_fragment_type"] += 1
+                continue
+            rt = c01core.norm(rt)
+            if rt != mt:
+                core_cmp["type_differs"] += 1
+            if rv != mv:
+                core_cmp["value_differs"] += 1
+            if rt == mt and rv == mv:
+                core_cmp["type_eq_value_eq"] += 1
+            elif sum(core_cmp[k] for k in ("type_differs", "value_differs")) <= 4:
+                # the real run itself was judged by the oracle (value in the compiler's type); a
+                # difference here means the Coq judgement / evaluator no longer describes the code
+                ctx.violation({"kind": "correspondence-broken",
+                               "correspondence": "typed/Core.v infer/eval vs the real compiler's inferred type / the real VM's value",
+                               "source": cp["src"], "core_program": cp["sexp"],
+                               "model": m, "impl_type": repr(rt), "impl_value": rv}, no_input=True)
+    cov["core_fragment_programs"] = len(core_progs)
+    cov["core_fragment_comparison"] = core_cmp
+    cov["core_fragment_generator_stats"] = core_stats
+    cov["core_fragment_examples"] = core_examples
 
     # ---------------- failures: classify (semantic signatures), shrink the unknown ones, report
     finding_hits = {}
